@@ -2,6 +2,7 @@ package props
 
 import (
 	"fmt"
+	"regexp"
 	"sort"
 	"strings"
 
@@ -344,6 +345,17 @@ func idsOf(rows []any) ([]float64, bool) {
 	return out, true
 }
 
+var c01ColRe = regexp.MustCompile(`\b(a2|b2|u8|i8|a|b|c|n|k|K|f)\b`)
+
+// qualifyColumns prefixes every column name of a rendered predicate with alias. (outside string literals).
+func qualifyColumns(pred, alias string) string {
+	parts := strings.Split(pred, "'")
+	for i := 0; i < len(parts); i += 2 {
+		parts[i] = c01ColRe.ReplaceAllString(parts[i], alias+".$1")
+	}
+	return strings.Join(parts, "'")
+}
+
 func (p *c01) RunCase(i int) *core.CaseResult {
 	defer withNoise()()
 	r := &core.CaseResult{}
@@ -394,6 +406,17 @@ func (p *c01) RunCase(i int) *core.CaseResult {
 			}
 			r.Fail("C01|"+kinds+"|"+mode, fmt.Sprintf("%s on %s: kept ids %v, reference keeps %v", sql, p.tnames[ti], got, wantIDs), cs)
 			continue
+		}
+		// the same predicate over an aliased table (rows wrapped under the alias, columns qualified): on
+		// the universal table, for every third predicate without a subquery
+		if ti == 0 && i%3 == 0 && !strings.Contains(sql, "SELECT n FROM") {
+			asql := "SELECT `x.id` AS id FROM t AS x WHERE " + qualifyColumns(SQL(pred), "x")
+			oa := gq.Run(doc, asql)
+			r.Execs++
+			ga, okA := idsOf(oa.Rows)
+			if oa.Failed() || !okA || fmt.Sprint(ga) != fmt.Sprint(wantIDs) {
+				r.Fail("C01|"+kinds+"|aliased-table", fmt.Sprintf("%s on %s: %s %v kept ids %v, reference keeps %v", asql, p.tnames[ti], oa.Status(), oa.Err, ga, wantIDs), map[string]any{"sql": asql, "doc": doc})
+			}
 		}
 		// law: a predicate and its negation partition the rows (implementation vs implementation)
 		outN := gq.Run(doc, sqlN)
